@@ -3040,6 +3040,18 @@ func loopVarFor(n *node) {
 	}
 }
 
+// loopVarBack sets the loop variable of a for statement from the per-iteration copy used
+// in the body n, so that the post statement sees the assignments made by the body.
+func loopVarBack(n *node) {
+	ixn := n.anc.child[0].child[0]
+	lvn := n.child[0]
+	next := getExec(n.tnext)
+	n.exec = func(f *frame) bltn {
+		f.data[ixn.findex].Set(f.data[lvn.findex])
+		return next
+	}
+}
+
 func rangeChan(n *node) {
 	i := n.child[0].findex        // element index location in frame
 	value := genValue(n.child[1]) // chan
